@@ -737,6 +737,7 @@ func (env *SpecEnv) call(x *ECall) SVal {
 	case "len", "cap":
 		v := env.eval(x.Args[0])
 		if ga, ok := v.V.(ghostArr); ok {
+			ex.heapElemType["G!"+ga.Name+"#len"] = types.Typ[types.Uint32]
 			h := ex.heap(env.state(), "G!"+ga.Name+"#len", arrSort(SRef, ex.cx.intS()))
 			return SVal{V: Sc{sel(h, ga.Ref)}, T: types.Typ[types.Int]}
 		}
@@ -819,6 +820,18 @@ func (env *SpecEnv) call(x *ECall) SVal {
 		return SVal{V: ex.unbox(v.V.(Sc).T, t), T: t}
 	case "sum":
 		return env.sumCall(x)
+	case "fresh":
+		// fresh(x): x is an object allocated after the pre-state
+		v := env.eval(x.Args[0])
+		ref, ok := env.objRef(v)
+		if sc, isSc := v.V.(Sc); isSc && sc.T.Sort == SSlice {
+			ref, ok = app(SRef, "sarr", sc.T), true
+		}
+		if !ok || env.old == nil {
+			return env.fail("fresh() of non-reference")
+		}
+		ap := ex.varOf(env.old, "allocptr", SInt)
+		return env.boolVal(and(app(SBool, "(_ is obj)", ref), app(SBool, ">=", app(SInt, "oid", ref), ap)))
 	case "off":
 		v := env.eval(x.Args[0])
 		if sc, ok := v.V.(Sc); ok && sc.T.Sort == SSlice {
